@@ -37,7 +37,7 @@ CONF = {
     "C04": dict(kinds={"panic", "crash", "boundary", "substring"},
                 quick=[("unicode", {"unicode_heavy": True}, 1.0), MIX], thorough=[("unicode", {"unicode_heavy": True}, 1.0), ("userfn", {"unicode_heavy": True}, 0.3), MIXT]),
     "C05": dict(kinds={"accept", "consumed", "tree", "variant"} | COMMON_DEATH,
-                quick=[("memo", {"memo_variants": True, "grammar_scale": 0.4, "long_inputs": True, "huge_inputs": True, "huge_every": 3}, 1.0), ("userfn", {"memo_variants": True, "grammar_scale": 0.2}, 1.0), ("memofam", {"memo_variants": True}, 1.0)],
+                quick=[("memo", {"memo_variants": True, "grammar_scale": 0.4, "long_inputs": True, "huge_inputs": True, "huge_every": 3}, 1.0), ("userfn", {"memo_variants": True, "grammar_scale": 0.35}, 1.0), ("memofam", {"memo_variants": True}, 1.0)],
                 thorough=[("memo", {"memo_variants": True, "grammar_scale": 0.4, "long_inputs": True, "huge_inputs": True, "huge_every": 3}, 1.0), ("userfn", {"memo_variants": True, "grammar_scale": 0.15}, 1.0), ("memofam", {"memo_variants": True}, 1.0)]),
     "C06": dict(kinds={"memo_bound"},
                 quick=[("memofail", {}, 1.0), ("leftrec", {}, 0.4), MIX], thorough=[("memofail", {}, 1.0), ("memo", {}, 0.5), ("leftrec", {}, 0.5), MIXT]),
